@@ -212,6 +212,43 @@ def h_siblings_many(E, n, k):
     return 'ok'
 
 
+def h_suffix_isolation(E):
+    """metric suffixes are an option of ONE grader: graders built before or after it, without the option, still refuse `2k`, `0M` ... as undefined
+    however the suffix is hidden (cancelling term, exponent zero, function argument)"""
+    import mitxgraders as m
+    from mitxgraders.exceptions import StudentFacingError
+    order = E.choice('metric_grader_built', ['before', 'after', 'both'])
+    kind = E.choice('grader', ['formula', 'numerical', 'matrix', 'sum'])
+    SX = make_sym_sampler(E, 'x', 1, 2)
+
+    def metric():
+        return m.FormulaGrader(answers='2k', metric_suffixes=True)
+
+    def plain():
+        if kind == 'formula':
+            return m.FormulaGrader(answers='2*x', variables=['x'], sample_from={'x': SX()}, samples=1), '2*x'
+        if kind == 'numerical':
+            return m.NumericalGrader(answers='2000'), '2000'
+        if kind == 'matrix':
+            return m.MatrixGrader(answers='2*x', variables=['x'], sample_from={'x': SX()}, samples=1), '2*x'
+        return m.SumGrader(answers={'lower': '1', 'upper': '3', 'summand': 'n', 'summation_variable': 'n'}, input_positions={'summand': 1}), None
+    if order in ('before', 'both'):
+        mg = metric()
+        E.check('metric-grader-itself-accepts-suffix', mg(None, '2000')['ok'] is True and mg(None, '2k')['ok'] is True)
+    g, honest = plain()
+    if order in ('after', 'both'):
+        mg2 = metric()
+        E.check('metric-grader-itself-accepts-suffix', mg2(None, '2k')['ok'] is True)
+    cheats = (['n + 0k', 'n*(1M)^0', 'n + sin(0m)'] if kind == 'sum' else ['%s + 0k' % honest, '%s*(1M)^0' % honest, '%s + sin(0m)' % honest, '2k' if kind == 'numerical' else '2*x+0u'])
+    for c in cheats:
+        try:
+            g(None, c)
+            E.check('restricted-construct-refused-never-credited', False)
+        except StudentFacingError:
+            E.check('restricted-construct-refused-never-credited', True)
+    return 'ok'
+
+
 def h_forbidden_spaces(E, which):
     """spaces inserted at every gap of the submission: the forbidden-string test ignores them"""
     from mitxgraders.helpers.math_helpers import validate_forbidden_strings_not_used
@@ -248,6 +285,7 @@ def harnesses(tier):
         add(h_numerical, 'numerical', dict(credit=credit), 'symbolic constant')
     for where in ('summand', 'lower', 'upper', 'all'):
         add(h_sum, 'sum', dict(where=where), 'symbolic samples; restricted construct in that field')
+    add(h_suffix_isolation, 'suffix_isolation', {}, 'a metric-suffix grader built before / after / both x 4 grader classes x 3-4 hidden suffix uses')
     add(h_siblings, 'siblings', {}, 'symbolic samples')
     for n, k in ((3, 1), (11, 10), (12, 3), (12, 11)):
         add(h_siblings_many, 'siblings_many', dict(n=n, k=k), 'n boxes, last answer references box k; student mentions any sibling_j, 4 cancelling forms')
